@@ -1,0 +1,44 @@
+//go:build verif
+
+package main
+
+// Machine-checked contracts (comment-only; build tag verif). Checked by /verif/bin/hv.
+
+// ctxWrap(h): the handler RequestContextMiddleware produces around h. The middleware returned by
+// logging.RequestContextMiddleware is an unnamed function value here, hence the "?" origin.
+//@ ufun ctxWrap(Int) Int
+//@ func fnvalue:buildHandler:? params(next)
+//@   ensures result != nil && ptr(result) == ctxWrap(ptr(next))
+
+//@ func buildHandler
+//@   props C16 C17
+//@   results handler, err
+//@   requires cfg != nil && lb != nil && registryOK()
+//@   ensures chain_error_prevents_startup: err != nil ==> handler == nil
+//@   ensures context_middleware_is_outermost: err == nil ==> handler != nil && (exists inner int :: {ctxWrap(inner)} ptr(handler) == ctxWrap(inner))
+//@   ensures no_plugins_means_bare_balancer: err == nil && !(cfg.Plugins.Enabled && len(cfg.Plugins.Chain) > 0) ==> ptr(handler) == ctxWrap(ptr(lb))
+//@   modifies mwAt, wrapAt
+//@ loop buildHandler #0
+//@   props C16 C17
+//@   invariant idx: rangeindex < len(cfg.Plugins.Chain)
+//@   invariant separate: names.base != 0 && !preexisting(names.base)
+//@   invariant others_kept: forall x int :: {backing(x, []string)} preexisting(x) ==> backing(x, []string) == old(backing(x, []string))
+//@   decreases len(cfg.Plugins.Chain) - rangeindex
+
+// ---- shutdown (C19): the HTTP server is shut down with a bounded context, then the balancer is stopped
+//@ func fnvalue:shutdownGracefully:cancel
+//@ func shutdownGracefully
+//@   props C19
+//@   requires server != nil && lb != nil && lb.cancel != nil && shutdownTimeout > 0
+//@   requires lb.wsPool != nil ==> unlocked(lb.wsPool.mu) && poolsOK(lb.wsPool) && noConnPoolLocks() && allIdleOK()
+//@   ensures balancer_stopped: lb.ctx.cancelled
+//@   ensures drain_gets_the_whole_configured_timeout: lastCtxTimeout == shutdownTimeout
+//@   modifies *
+
+// ---- server timeouts (C03): finite and positive for every accepted configuration (0 means the default)
+//@ func createHTTPServer
+//@   props C03
+//@   requires cfg != nil && 0 <= cfg.Server.Timeouts.Read && cfg.Server.Timeouts.Read < 8589934592 && 0 <= cfg.Server.Timeouts.Write && cfg.Server.Timeouts.Write < 8589934592
+//@   requires 0 <= cfg.Server.Timeouts.Idle && cfg.Server.Timeouts.Idle < 8589934592
+//@   ensures timeouts_positive: result != nil && result.ReadTimeout > 0 && result.WriteTimeout > 0 && result.IdleTimeout > 0
+//@   ensures configured_values_used: cfg.Server.Timeouts.Read > 0 ==> result.ReadTimeout == cfg.Server.Timeouts.Read * 1000000000
